@@ -72,9 +72,13 @@ def main() -> None:
         elif arg in ['--no-rimurc']:
             no_rimurc = True
         elif arg in ['--safe-mode', '--safeMode']:  # --safeMode deprecated in Rimu 7.1.0
-            safe_mode = int(popArg(arg))
+            safe_mode_arg = popArg(arg)
+            try:
+                safe_mode = int(safe_mode_arg)
+            except ValueError:
+                safe_mode = -1  # Not an integer.
             if safe_mode < 0 or safe_mode > 15:
-                die(f'illegal --safe-mode option value: {safe_mode}')
+                die(f'illegal --safe-mode option value: {safe_mode_arg}')
         elif arg in ['--html-replacement', '--htmlReplacement']:  # --htmlReplacement deprecated in Rimu 7.1.0
             html_replacement = popArg(arg)
         elif arg in [  # Styling macro definitions shortcut options.
